@@ -4,7 +4,8 @@ from model import (dstr, strip, fact_holds, mentions_field, mentions_call, menti
                    const_value, walk)
 from rules import (guarded, calls_to, field_writes, who_may_write, full_range, loops_over,
                    every_iteration_passes, basename, origins, is_var, is_enum, lastname,
-                   dominated_by, reject_if, must_pass, deep_resolve, skip_conditions_exact)
+                   dominated_by, reject_if, must_pass, deep_resolve, skip_conditions_exact,
+                   header_iff_empty)
 from bounds import bounds, upper_by_fact, INF
 
 
@@ -136,6 +137,19 @@ def run(ctx):
                                    is_blocker=lambda x: x['k'] == 'asg' and is_var('offset')(x['l']))
                 ctx.check('C09.X2', r is None, load.name, 'id-mismatch:accepted:%s' % k[:30], 'src/deps_log.cc:%s' % load.term(bid)['line'],
                           'a record failing `%s` is not accepted' % ef[0][:50])
+    # ... and the node table is only touched once both tests have passed (not before them)
+    accept_sites = [x for x in load.events('call') if accepted(x) or
+                    (lastname(x.get('name')) == 'push_back' and mentions_field(x.get('recv'), 'DepsLog::nodes_'))]
+    for x in accept_sites:
+        fs = load.facts_at(x)
+        ok = fact_holds(fs, lambda a: 'id==expected_id' in dstr(a).replace(' ', ''), True) and \
+            (fact_holds(fs, lambda a: 'Node::id_<0' in dstr(a).replace(' ', ''), True) or
+             any(accepted(y) and y is not x and load.dominates_ev(y, x) for y in accept_sites))  # set_id itself ends "id < 0"
+        ctx.check('C09.X2', ok, load.name, 'id-table-updated-before-checks:%s' % lastname(x.get('name')), load.where(x),
+                  'the path record is entered into the node table only after the checksum and the '
+                  'duplicate-id test passed')
+    if len(accept_sites) < 2:
+        ctx.violation('C09.X2', load.name, 'id-table:sites', load.loc, 'set_id / nodes_.push_back sites missing in Load')
     if n < 2:
         ctx.violation('C09.X2', load.name, 'id-checks:absent', load.loc, 'checksum / duplicate-id tests missing (%d found)' % n)
     exp = load.single_def('expected_id')
@@ -144,7 +158,7 @@ def run(ctx):
     idd = load.single_def('id')
     ctx.check('C09.X2', idd is not None and 'DepsLog::nodes_.size()' in dstr(idd), load.name, 'id:next', load.loc,
               'the id of a path record is nodes_.size(): %s' % dstr(idd))
-    ctx.floor('C09.X2', 4)
+    ctx.floor('C09.X2', 6)
 
     # ---- TA1: layout agreement writer / reader ---------------------------------------------------
     R('C09.TA1', 'TA', 'the word layout written by RecordDeps / RecordId agrees with what Load reads: '
@@ -223,6 +237,8 @@ def run(ctx):
     ctx.check('C09.TA1', len(sigw) == 2 and 'kFileSignature' in dstr(sigw[0]['args'][0]) + dstr(sigw[1]['args'][0]) and
               'kCurrentVersion' in dstr(sigw[0]['args'][0]) + dstr(sigw[1]['args'][0]), ow.name, 'header:writer', ow.loc,
               'the file starts with kFileSignature and kCurrentVersion')
+    header_iff_empty(ctx, 'C09.TA1', ow, lambda x: x.get('name') == 'fwrite' and mentions_var(x.get('args'), 'kFileSignature'),
+                     'DepsLog::file_')
     hdr = [e for e in load.calls('memcmp') if 'kFileSignature' in dstr(e.get('args'))]
     ctx.check('C09.TA1', len(hdr) == 1 and any('kCurrentVersion' in dstr(e.get('init')) for e in load.events('decl')), load.name, 'header:reader', load.loc,
               'the reader checks the same signature and version constants')
